@@ -293,6 +293,9 @@ Proof.
 Qed.
 Lemma pit_not_safe : ~ Safe (en_of [0]) pit.
 Proof. cbn. lra. Qed.
+Lemma where_pitfall :
+  eval OROps (lift (en_of [0])) pit = Some 1 /\ vjp OROps (lift (en_of [0])) pit (Some 1) (TVar 0) = None /\ ~ Safe (en_of [0]) pit.
+Proof. exact (conj pit_value (conj pit_grad_poisoned pit_not_safe)). Qed.
 
 (* ====================================================================================== *)
 (** * 4. Safe of the leaf formulas, for ALL real inputs (compositional: the input is any Safe term) *)
